@@ -262,12 +262,36 @@ func (c *updater) setAuthExternal(config ConfigValueGetter, auth *hatypes.AuthEx
 func (c *updater) buildBackendAuthExternal(d *backData) {
 	for _, path := range d.backend.Paths {
 		config := d.mapper.GetConfig(path.Link)
-		isBackend := config.Get(ingtypes.BackAuthExternalPlacement).ToLower() == "backend"
 		url := config.Get(ingtypes.BackAuthURL)
-		if isBackend && url.Value != "" {
+		if url.Value == "" {
+			continue
+		}
+		placement := config.Get(ingtypes.BackAuthExternalPlacement)
+		switch placement.ToLower() {
+		case "backend":
 			c.setAuthExternal(config, &path.AuthExternal, url)
+		case "frontend":
+			// should already be configured in the host. Deny if it was not, eg due
+			// to conflicting configurations on distinct ingress of the same hostname
+			if !c.hasHostAuthExternal(path.Link) {
+				c.logger.Warn("denying requests due to a missing external auth configuration on the frontend of %v", url.Source)
+				path.AuthExternal.AlwaysDeny = true
+			}
+		default:
+			// auth backend should be configured or requests should be denied
+			c.logger.Warn("denying requests due to an invalid external auth placement on %v: %s", placement.Source, placement.Value)
+			path.AuthExternal.AlwaysDeny = true
 		}
 	}
+}
+
+func (c *updater) hasHostAuthExternal(link *hatypes.PathLink) bool {
+	host := c.haproxy.Hosts().FindHost(link.Hostname())
+	if host == nil {
+		return false
+	}
+	path := host.FindPathWithLink(link)
+	return path != nil && path.AuthExt != nil
 }
 
 func (c *updater) buildBackendAuthHTTP(d *backData) {
@@ -704,6 +728,14 @@ func (c *updater) buildBackendOAuth(d *backData) {
 			continue
 		}
 
+		// auth-url has precedence if configured in the same path. Its external
+		// authentication or, if misconfigured, its deny state was already
+		// configured and should be preserved.
+		if authURL := config.Get(ingtypes.BackAuthURL); authURL.Value != "" {
+			c.logger.Warn("ignoring oauth configuration on %v: auth-url was configured and has precedence", authURL.Source)
+			continue
+		}
+
 		// starting here the auth backend should be configured or requests should be denied
 		// AlwaysDeny will be changed to false if the configuration succeed
 		path.AuthExternal.AlwaysDeny = true
@@ -715,11 +747,6 @@ func (c *updater) buildBackendOAuth(d *backData) {
 		external := c.haproxy.Global().External
 		if external.IsExternal && !external.HasLua {
 			c.logger.Warn("oauth2_proxy on %v needs Lua json module, install lua-json4 and enable 'external-has-lua' global config", oauth.Source)
-			continue
-		}
-		if authURL := d.mapper.Get(ingtypes.BackAuthURL); authURL.Value != "" {
-			c.logger.Warn("ignoring oauth configuration on %v: auth-url was configured and has precedence", authURL.Source)
-			path.AuthExternal.AlwaysDeny = false
 			continue
 		}
 		uriPrefix := "/oauth2"
